@@ -675,11 +675,10 @@ where
         let mut rng = state.random_mut();
 
         for solution in populations.current_mut().as_solutions_mut() {
-            let [start, end]: [_; 2] = (0..solution.len())
-                .choose_multiple(&mut *state.random_mut(), 2)
-                .try_into()
-                .unwrap();
-            let index = rng.gen_range(0..start);
+            let mut indices = (0..solution.len()).choose_multiple(&mut *rng, 2);
+            indices.sort_unstable();
+            let [start, end]: [_; 2] = indices.try_into().unwrap();
+            let index = rng.gen_range(0..=start);
             f::translocate_slice(solution, start..end, index);
         }
         Ok(())
